@@ -380,7 +380,7 @@ class CallMixin:
             base, field = m.rsplit(".", 1)
             if base in self.classes:  # Class.field : all objects
                 fty = self.classes[base].fields[field]
-                arr = z3.FreshConst(z3.ArraySort(T.ObjT(base).sort(), fty.sort()), f"{base}.{field}")
+                arr = z3.FreshConst(z3.ArraySort(self.objT(base).sort(), fty.sort()), f"{base}.{field}")
                 return self.assume_heap_inv(st.set_heap((base, field), arr), base, field, fty)
             bv = self.spec(base, pre, env=env, want_bool=False)
             if not isinstance(bv.ty, T.ObjT):
@@ -405,7 +405,7 @@ class CallMixin:
         raise SpecError(f"modifies {m}: unknown location at call of {c.key if c else '?'}")
 
     def assume_heap_inv(self, st, cls, field, fty):
-        o = T.ObjT(cls).fresh("o")
+        o = self.objT(cls).fresh("o")
         inv = fty.inv(z3.Select(st.heap[(cls, field)], o))
         if inv is not None:
             st = st.assume(z3.ForAll([o], inv))
